@@ -352,7 +352,7 @@ PROPS = {
                       "is assumed to delete exactly the named ref. Fixed in /repo: wipe always failed on the configuration step; RemoveAll "
                       "left tracking refs of non-local entities.",
         "required_theorems": ["remove_targets", "remove_frame", "remove_subset", "remove_idem", "remove_sublist", "remove_persists",
-                              "wipe_clean", "wipe_frame", "removeAll_local_only_leaves_tracking_ref"],
+                              "wipe_clean", "wipe_frame", "removeAll_local_only_leaves_tracking_ref", "removeSerial_removes", "removeSerial_frame", "packed_rewrite_race"],
         "slices": ["C14"],
         "needs_gitbug": True,
         "rule": "go-git repositories with 0..3 bare remotes, the target bug pushed to a random subset, two neighbours pushed everywhere, a host "
